@@ -342,3 +342,149 @@ pub fn d_snapshot_total<'a>(a: S<'a, KV>) -> S<'a, Vec<i64>> {
         .all_ticks()
         .map(q!(|(t, l)| vec![t as i64, l as i64]))
 }
+
+// ---------------------------------------------------------------------------------------------
+// tick-level sources (`optional_first_tick`, `tick.singleton`, `tick.none`) used DIRECTLY as operands:
+// a first-tick value is present in tick 0 only and must not leak into later ticks through the operator
+// that consumes it
+
+pub fn f_cross_first<'a>(a: S<'a, KV>) -> S<'a, Vec<i64>> {
+    let (tick, b) = vals(a);
+    b.cross_singleton(tick.optional_first_tick(q!(7i64)))
+        .all_ticks()
+        .map(q!(|(x, f)| vec![x, f]))
+}
+
+pub fn f_cross_const<'a>(a: S<'a, KV>) -> S<'a, Vec<i64>> {
+    let (tick, b) = vals(a);
+    b.cross_singleton(tick.singleton(q!(5i64)))
+        .all_ticks()
+        .map(q!(|(x, c)| vec![x, c]))
+}
+
+pub fn f_cross_none<'a>(a: S<'a, KV>) -> S<'a, Vec<i64>> {
+    let (tick, b) = vals(a);
+    b.cross_singleton(tick.none::<i64>())
+        .all_ticks()
+        .map(q!(|(x, c)| vec![x, c]))
+}
+
+pub fn f_zip_count_first<'a>(a: S<'a, KV>) -> S<'a, Vec<i64>> {
+    let (tick, b) = vals(a);
+    b.count()
+        .zip(tick.optional_first_tick(q!(7i64)))
+        .all_ticks()
+        .map(q!(|(n, f)| vec![n as i64, f]))
+}
+
+pub fn f_zip_count_const<'a>(a: S<'a, KV>) -> S<'a, Vec<i64>> {
+    let (tick, b) = vals(a);
+    b.count()
+        .zip(tick.singleton(q!(5i64)))
+        .all_ticks()
+        .map(q!(|(n, c)| vec![n as i64, c]))
+}
+
+pub fn f_zip_max_first<'a>(a: S<'a, KV>) -> S<'a, Vec<i64>> {
+    let (tick, b) = vals(a);
+    b.max()
+        .zip(tick.optional_first_tick(q!(7i64)))
+        .all_ticks()
+        .map(q!(|(m, f)| vec![m, f]))
+}
+
+/// singleton.zip(optional) with both operands tick-level sources, then zipped with the batch count.
+pub fn f_zip_const_first<'a>(a: S<'a, KV>) -> S<'a, Vec<i64>> {
+    let (tick, b) = vals(a);
+    tick.singleton(q!(5i64))
+        .zip(tick.optional_first_tick(q!(7i64)))
+        .zip(b.count())
+        .all_ticks()
+        .map(q!(|((c, f), n)| vec![c, f, n as i64]))
+}
+
+pub fn f_first_zip_count<'a>(a: S<'a, KV>) -> S<'a, Vec<i64>> {
+    let (tick, b) = vals(a);
+    tick.optional_first_tick(q!(7i64))
+        .zip(b.count())
+        .all_ticks()
+        .map(q!(|(f, n)| vec![f, n as i64]))
+}
+
+pub fn f_filter_if_first<'a>(a: S<'a, KV>) -> S<'a, Vec<i64>> {
+    let (tick, b) = vals(a);
+    b.filter_if(tick.optional_first_tick(q!(7i64)).is_some())
+        .all_ticks()
+        .map(q!(|x| vec![x]))
+}
+
+pub fn f_filter_if_some_first<'a>(a: S<'a, KV>) -> S<'a, Vec<i64>> {
+    let (tick, b) = vals(a);
+    b.filter_if_some(tick.optional_first_tick(q!(7i64)))
+        .all_ticks()
+        .map(q!(|x| vec![x]))
+}
+
+pub fn f_filter_if_none_first<'a>(a: S<'a, KV>) -> S<'a, Vec<i64>> {
+    let (tick, b) = vals(a);
+    b.filter_if_none(tick.optional_first_tick(q!(7i64)))
+        .all_ticks()
+        .map(q!(|x| vec![x]))
+}
+
+pub fn f_count_filter_if_some<'a>(a: S<'a, KV>) -> S<'a, Vec<i64>> {
+    let (tick, b) = vals(a);
+    b.count()
+        .filter_if_some(tick.optional_first_tick(q!(7i64)))
+        .all_ticks()
+        .map(q!(|n| vec![n as i64]))
+}
+
+pub fn f_chain_first<'a>(a: S<'a, KV>) -> S<'a, Vec<i64>> {
+    let (tick, b) = vals(a);
+    tick.optional_first_tick(q!(7i64))
+        .into_stream()
+        .chain(b)
+        .all_ticks()
+        .map(q!(|x| vec![x]))
+}
+
+pub fn f_or_first<'a>(a: S<'a, KV>) -> S<'a, Vec<i64>> {
+    let (tick, b) = vals(a);
+    tick.optional_first_tick(q!(7i64))
+        .or(b.max())
+        .all_ticks()
+        .map(q!(|x| vec![x]))
+}
+
+pub fn f_or_max_first<'a>(a: S<'a, KV>) -> S<'a, Vec<i64>> {
+    let (tick, b) = vals(a);
+    b.max()
+        .or(tick.optional_first_tick(q!(7i64)))
+        .all_ticks()
+        .map(q!(|x| vec![x]))
+}
+
+pub fn f_unwrap_cross<'a>(a: S<'a, KV>) -> S<'a, Vec<i64>> {
+    let (tick, b) = vals(a);
+    b.cross_singleton(
+        tick.optional_first_tick(q!(7i64))
+            .unwrap_or(tick.singleton(q!(1i64))),
+    )
+    .all_ticks()
+    .map(q!(|(x, f)| vec![x, f]))
+}
+
+pub fn f_join_first<'a>(a: S<'a, KV>) -> S<'a, Vec<i64>> {
+    let (tick, b) = pairs(a);
+    b.join(tick.optional_first_tick(q!((0i64, 7i64))).into_stream())
+        .all_ticks()
+        .map(q!(|(k, (v, f))| vec![k, v, f]))
+}
+
+pub fn f_anti_first<'a>(a: S<'a, KV>) -> S<'a, Vec<i64>> {
+    let (tick, b) = pairs(a);
+    b.anti_join(tick.optional_first_tick(q!(0i64)).into_stream())
+        .all_ticks()
+        .map(q!(|(k, v)| vec![k, v]))
+}
